@@ -22,3 +22,6 @@ package types
 //@ loop 3 invariant [from-map] forall j int :: 0 <= j && j < len(out) ==> has(m, out[j].PubKey.String()) && m[out[j].PubKey.String()] == out[j]
 //@ ensures [result-from-map] (stretch) forall j int :: 0 <= j && j < len(result) ==> has(m, result[j].PubKey.String()) && m[result[j].PubKey.String()] == result[j]
 //@ ensures [sorted] forall a int, b int :: 0 <= a && a < b && b < len(result) ==> result[a].Power > result[b].Power || (result[a].Power == result[b].Power && !(result[b].PubKey.String() > result[a].PubKey.String()))
+
+// JSON decoding of the transfer memo is outside the modelled subset: its result is an uninterpreted deterministic function of the string
+//@ func GetRewardMemoFromTransferMemo pure modular trusted
